@@ -154,4 +154,34 @@ theorem runEvents_reachable {p : Params} {s s' : State} {es : List Ev}
     | none => simp [hst] at h
     | some s1 => simp only [hst] at h; exact ih (.tail h0 ⟨e, hst⟩) h
 
+theorem cex_produces {v k d : Nat} (h : cexParams.g.Produces v k d) : v = 0 ∧ k = 0 ∧ d = 1 := by
+  unfold Graph.Produces Graph.vert cexParams at h
+  match v, k with
+  | 0, 0 => simp at h; exact ⟨rfl, rfl, h.symm⟩
+  | 0, k + 1 => simp at h
+  | v + 1, k => simp at h
+
+theorem cex_wf : WF cexParams := by
+  constructor
+  · intro v k d h; obtain ⟨rfl, rfl, rfl⟩ := cex_produces h; simp [cexParams]
+  · intro v k v' k' d h h'
+    obtain ⟨rfl, rfl, rfl⟩ := cex_produces h
+    obtain ⟨rfl, rfl, _⟩ := cex_produces h'
+    exact ⟨rfl, rfl⟩
+  · intro v k d dep h hd
+    obtain ⟨rfl, rfl, rfl⟩ := cex_produces h
+    simp [Graph.vert, cexParams] at hd
+    subst hd; simp
+  · simp [cexParams]
+  · intro v dep c ev hd hc
+    match v with
+    | 0 => simp [Graph.vert, cexParams] at hd; subst hd; simp at hc
+    | v + 1 => simp [Graph.vert, cexParams] at hd
+
+/-- a successful run of the same graph with the input preset before `run` -/
+def okSchedule : List Ev :=
+  [.envSeal 0 (some 5), .run, .bind, .activate 0, .dactivate 0, .vdec 0 1, .vadd, .procStart 0 [some 5],
+   .sealBy 0 0 (mix 0 [some 5] 0), .dsub, .procEnd 0, .vsub, .fireD, .finish 0, .fireV]
+
+
 end Babylon.Anyflow.Graph
